@@ -127,4 +127,12 @@ def canonicalize_url(
         return result
 
     # Serializing
-    return urlunsplit(result)
+    result = urlunsplit(result)
+
+    # NOTE: urlunsplit drops the "//" of an empty authority when it does not know
+    # the scheme ("custom:///p" -> "custom:/p"): what is left would not be
+    # recognized as having a protocol anymore
+    if scheme and not netloc and not result.startswith(scheme + "://"):
+        result = scheme + "://" + result[len(scheme) + 1 :]
+
+    return result
